@@ -55,6 +55,8 @@ type Run struct {
 	nfail       int
 	Assumptions []string
 	broken      string
+	// RaceWorkload, when set, makes Finish run the free-running race-detector supplement (engine.RacePass) with that workload.
+	RaceWorkload string
 	deadline    time.Time
 }
 
@@ -141,6 +143,12 @@ type Coverage map[string]interface{}
 
 // Finish writes the evidence file, prints KNOWN-FINDING / VIOLATION lines and exits.
 func (r *Run) Finish(cov Coverage) {
+	if cov == nil {
+		cov = Coverage{}
+	}
+	if r.RaceWorkload != "" && os.Getenv("VERIF_BFS_WORKER") == "" {
+		r.RacePassInto(r.RaceWorkload, cov)
+	}
 	wall := time.Since(r.start).Seconds()
 	known := map[string]Finding{}
 	for _, f := range loadFindings() {
